@@ -102,8 +102,10 @@ def gen_cases(ctx, tier):
         c = rng.random()
         if c < 0.5:
             us = [u, u, u]
-        elif c < 0.8:
+        elif c < 0.7:
             us = [group_mates(rng, u) for _ in range(3)]
+        elif c < 0.85:
+            us = [rng.choice([u, ""]) for _ in range(3)]
         else:
             us = [rng.choice(ALLU) for _ in range(3)]
         args = [arg(rng, w) for w in us]
